@@ -3,7 +3,7 @@
    wire grammar, 1..8 ASCII digits and one unit of H M S m u n, value clamped to the largest Duration.
    The cancellation half of C15 is the run-time's doing (net/http cancels the request context);
    it is observed by the harness on a loopback server, not proved: the claim is partial there. *)
-From Larking Require Import Base.GoSem Model.Timeout Proofs.TimeoutProofs.
+From Larking Require Import Base.GoSem Model.Timeout Proofs.TimeoutProofs Model.TimeoutForward Proofs.TimeoutForwardProofs.
 Local Open Scope Z_scope.
 
 (* exactness: a string is accepted iff it is legal, and then the duration is value x unit, clamped *)
@@ -31,6 +31,36 @@ Proof.
   assert (0 < 10 ^ Z.of_nat (length ds)) by (apply Z.pow_pos_nonneg; lia). unfold max_i64. nia.
 Qed.
 Print Assumptions C15_duration_range.
+
+(* ---- the proxied call (a method served by a backend behind RegisterConn): the handler of the RPC is the backend's, and
+   what it is told is the time left on the front call's context, written by grpc-go's EncodeDuration
+   (Model/TimeoutForward.v, a library function: modelled, see the trusted base) ---- *)
+
+(* the backend is never told less than the time that was left, and less than one unit (of the unit chosen) more *)
+Theorem C15_forwarded_timeout_covers_time_left : forall t, 0 < t ->
+  let (v, u) := encode_duration t in t <= v * u < t + u /\ 0 < v.
+Proof. exact forwarded_sound. Qed.
+Print Assumptions C15_forwarded_timeout_covers_time_left.
+
+(* the value written has at most eight digits (the wire grammar), up to the largest timeout a caller can state *)
+Theorem C15_forwarded_value_is_legal : forall t, 0 < t -> t <= max_timeout_value * hour_ns ->
+  let (v, _) := encode_duration t in v <= max_timeout_value.
+Proof. exact forwarded_value_fits. Qed.
+Print Assumptions C15_forwarded_value_is_legal.
+
+(* rounding up never extends the deadline: a call that came with the legal timeout string s (T ns) and has t of it
+   left reaches the backend with at most T -- so the backend's handler, too, runs under a deadline at most T after
+   receipt of the request by the mux (and, by the theorem above, not before the front call's own deadline) *)
+Theorem C15_proxied_deadline_within_callers : forall s T t,
+  decode_timeout s = Some T -> T < max_i64 -> 0 < t <= T -> forwarded_ns t <= T.
+Proof. exact proxied_deadline_within_callers. Qed.
+Print Assumptions C15_proxied_deadline_within_callers.
+
+Example forwarded_instances :
+  encode_duration 999500000 = (999500, 1000) /\ encode_duration 99999999 = (99999999, 1) /\
+  encode_duration 100000000 = (100000, 1000) /\ encode_duration 0 = (0, 1) /\
+  forwarded_ns (99999999 * 3600000000000 - 1000000) <= 99999999 * 3600000000000.
+Proof. vm_compute. repeat split; discriminate. Qed.
 
 Example legal_instances :
   decode_timeout [49;83]%N = Some 1000000000 /\                                  (* "1S" *)
